@@ -228,9 +228,12 @@ def rule_ms(ctx: Ctx):
             saw_mapper = True
             r3.ob(len(vals) == 1 and vals[0].value == ("dict",) and _key0(vals[0].index), lambda: _f(
                 "MS-3", "add_key{mapper}", mm, fn, "a mapper slot must start as an empty dict at index key[0]", trace_of(p)))
-        elif dflt and _dflt_present(dflt[0]):
+        elif dflt and any(_dflt_present(d) for d in dflt):
+            # some test of the path says a default exists (it is not None): it must be written, whatever its truth value -- a slot that is
+            # re-used keeps the last value of its previous owner otherwise (0 and False are defaults too)
             r3.ob(len(vals) == 1 and vals[0].value == ("attr", SELF, "default_value") and _key0(vals[0].index), lambda: _f(
-                "MS-3", "add_key{default-value}", mm, fn, "a state with a default must read as that default after add_key", trace_of(p)))
+                "MS-3", "add_key{default-value}", mm, fn, "a state with a default (any value but None: 0 and False count) must read as that default after "
+                "add_key; on this path [%s] the value array is %s" % ("; ".join(d.brief() for d in dflt), "not written" if not vals else "written with something else"), trace_of(p)))
         else:
             r3.ob(not vals, lambda: _f("MS-3", "add_key{no-default}", mm, fn, "without default the value must stay unwritten (NOTSET)", trace_of(p)))
     r1.ob(grow_paths > 0, lambda: _f("MS-1", "add_key{growth}", mm, fn, "add_key no longer grows the arrays"))
@@ -502,18 +505,34 @@ def rule_ms(ctx: Ctx):
             "states declared with data type %s are kept in %s; the declared types must map to int->'q', 'uint'->'Q', float->'d', bool->'B', anything "
             "else a list (a narrower typecode truncates or rejects stored values)" % (
                 name_, "a list" if got.get(name_) is None else "array(%r)" % (got.get(name_),))))
+    # the declaration reaches the store as made: the default kept by the store is the default_value it was constructed with, for every
+    # data type (a store that invents a default -- 0 for numbers -- never reads NOTSET, and an operator that seeds lazily on NOTSET, scan,
+    # never seeds), and the data type it keeps is the declared one
+    for dt, _code in cases:
+        for p in ctx.fn_paths(mm, fn, extra_env={"data_type": dt}):
+            r3.paths += 1
+            if p.outcome == "raise":
+                continue
+            dv = [e for e in p.trace if e.k == "attrstore" and e.base == SELF and e.attr == "default_value"]
+            r3.ob(bool(dv) and dv[-1].value == ("arg", "default_value"), lambda p=p, dv=dv, dt=dt: _f(
+                "MS-3", "__init__{default}", mm, fn,
+                "a %s store must keep the default value it is declared with (None: no default, the slot reads NOTSET until written); it keeps %s" % (
+                    dt[1], show(dv[-1].value) if dv else "none"), trace_of(p)))
     for r, n in ((r1, 2), (r2, 4), (r3, 5), (r4, 2), (r5, 1)):
         r.require_instances(n)
     return [r1, r2, r3, r4, r5]
 
 
 def _dflt_present(d):
-    t = d.test
+    """does the decision establish that the default value is not None?  (a truthiness test that fails says nothing: 0 / False / None)"""
+    t, out = d.test, d.outcome
+    while t[0] == "not":
+        t, out = t[1], not out
     if t[0] == "cmp" and t[1] in ("IsNot", "NotEq") and ("const", None) in (t[2], t[3]):
-        return d.outcome
+        return out
     if t[0] == "cmp" and t[1] in ("Is", "Eq") and ("const", None) in (t[2], t[3]):
-        return not d.outcome
-    return d.outcome
+        return not out
+    return out
 
 
 # ----------------------------------------------------------------------
